@@ -196,6 +196,7 @@ Qed.
 (* ------------------------------------------------------------------ well-formed, chain-ordered topologies *)
 Record wfo (h : heap) (t : topo) : Prop := {
   wo_heap : hwf h;
+  wo_back : back_ok h t;
   wo_walk : exists w, walk h t = Some w /\ normal (map vchain_of w) /\ NoDup (map fst (walk_atoms w)) /\
             t_atoms t = map fst (walk_atoms w) /\ t_residues t = concat (map (fun cw => c_res (fst cw)) w) /\
             t_numAtoms t = length (t_atoms t) /\ t_numRes t = length (t_residues t) /\
@@ -222,7 +223,10 @@ Qed.
 
 Lemma wfo_agree h h' t : wfo h t -> hwf h' -> agree (h_next h) h h' -> wfo h' t.
 Proof.
-  intros [Hw [w [Hwalk [Hn [Hnd [Hat [Hre [Hc1 [Hc2 Hb]]]]]]]]] Hw' Hag. split; [exact Hw'|].
+  intros [Hw Hbk [w [Hwalk [Hn [Hnd [Hat [Hre [Hc1 [Hc2 Hb]]]]]]]]] Hw' Hag. split; [exact Hw'| |].
+  { intros l a Hin G. apply (Hbk l a Hin). rewrite <- G. symmetry. apply (Hag l).
+    rewrite Hat in Hin. apply in_map_iff in Hin. destruct Hin as [[l' a'] [Heq Hin]]. simpl in Heq; subst l'.
+    eapply hwf_lt_a; [exact Hw|]. eapply walk_atoms_get; eauto. }
   exists w. split; [exact (walk_agree h h' t w Hw Hag Hwalk)|]. split; [exact Hn|]. split; [exact Hnd|].
   split; [exact Hat|]. split; [exact Hre|]. split; [exact Hc1|]. split; [exact Hc2|].
   intros b Hin. destruct (Hb b Hin) as [H1 [H2 [a1 [a2 [G1 [G2 Hle]]]]]].
@@ -533,6 +537,29 @@ Proof.
   simpl. rewrite renum_res_length, renum_res_natoms, renum_res_idem, IH. reflexivity.
 Qed.
 
+Lemma lay_atoms_res n r na l x a : In (x, a) (lay_atoms n r na l) -> a_res a = r.
+Proof.
+  revert n na; induction l as [|d l IH]; intros n na H; [destruct H|].
+  simpl in H. destruct H as [H|H]; [inversion H; reflexivity | eapply IH; eauto].
+Qed.
+Lemma lay_res_back n c nr na l x a :
+  In (x, a) (lay_res_atoms (lay_res n c nr na l)) -> In (a_res a) (map fst (lay_res n c nr na l)).
+Proof.
+  revert n nr na; induction l as [|d l IH]; intros n nr na H; [destruct H|].
+  unfold lay_res_atoms in H. simpl in H. apply in_app_or in H. destruct H as [H|H].
+  - left. symmetry. eapply lay_atoms_res; eauto.
+  - right. apply IH. exact H.
+Qed.
+Lemma lay_chains_back n nc nr na l x a :
+  In (x, a) (lay_chain_atoms (lay_chains n nc nr na l)) -> In (a_res a) (lay_chain_res (lay_chains n nc nr na l)).
+Proof.
+  revert n nc nr na; induction l as [|d l IH]; intros n nc nr na H; [destruct H|].
+  unfold lay_chain_atoms, lay_chain_res in *. simpl in H. simpl. apply in_app_or in H. apply in_or_app.
+  destruct H as [H|H].
+  - left. rewrite map_map in H. apply (lay_res_back (S n) n nr na (dc_res d) x a). exact H.
+  - right. apply IH. exact H.
+Qed.
+
 (* ------------------------------------------------------------------ the theorems about copy() *)
 Section CopyFix.
   Variables (h : heap) (t : topo) (h' : heap) (t' : topo).
@@ -542,7 +569,7 @@ Section CopyFix.
   (* copy() preserves every atom, residue, chain (ids included) and bond *)
   Lemma copy_abs : abs h' t' = abs h t.
   Proof.
-    destruct Hwfo as [Hw [w [Hwalk [Hn [Hnd [_ [_ [_ [_ Hb]]]]]]]]].
+    destruct Hwfo as [Hw _ [w [Hwalk [Hn [Hnd [_ [_ [_ [_ Hb]]]]]]]]].
     destruct (copy_fix_struct h t w h' t' Hw Hwalk Hn Hnd Hb Hcopy)
       as [Hw' [Hag [_ [HLw [Hc [_ [_ [_ [_ [Hbonds _]]]]]]]]]].
     unfold abs. rewrite Hc, Hbonds.
@@ -554,14 +581,14 @@ Section CopyFix.
   (* nothing that existed before the copy is modified *)
   Lemma copy_frame : agree (h_next h) h h'.
   Proof.
-    destruct Hwfo as [Hw [w [Hwalk [Hn [Hnd [_ [_ [_ [_ Hb]]]]]]]]].
+    destruct Hwfo as [Hw _ [w [Hwalk [Hn [Hnd [_ [_ [_ [_ Hb]]]]]]]]].
     destruct (copy_fix_struct h t w h' t' Hw Hwalk Hn Hnd Hb Hcopy) as [_ [Hag _]]. exact Hag.
   Qed.
 
   (* every object the copy can reach was allocated by the copy *)
   Lemma copy_fresh : forall l, In l (reach h' t') -> h_next h <= l.
   Proof.
-    destruct Hwfo as [Hw [w [Hwalk [Hn [Hnd [_ [_ [_ [_ Hb]]]]]]]]].
+    destruct Hwfo as [Hw _ [w [Hwalk [Hn [Hnd [_ [_ [_ [_ Hb]]]]]]]]].
     destruct (copy_fix_struct h t w h' t' Hw Hwalk Hn Hnd Hb Hcopy)
       as [Hw' [Hag [_ [HLw [Hc [Hr [Ha [_ [_ [_ Hbe]]]]]]]]]].
     set (L := lay_chains (h_next h) 0 0 0 (copy_desc true w)) in *.
@@ -588,12 +615,16 @@ Section CopyFix.
   Lemma copy_wfo : wfo h' t' /\ wfo h' t.
   Proof.
     pose proof Hwfo as Hwfo0.
-    destruct Hwfo as [Hw [w [Hwalk [Hn [Hnd [_ [_ [_ [_ Hb]]]]]]]]].
+    destruct Hwfo as [Hw _ [w [Hwalk [Hn [Hnd [_ [_ [_ [_ Hb]]]]]]]]].
     destruct (copy_fix_struct h t w h' t' Hw Hwalk Hn Hnd Hb Hcopy)
       as [Hw' [Hag [_ [HLw [Hc [Hr [Ha [Hna [Hnr [_ Hbe]]]]]]]]]].
     set (L := lay_chains (h_next h) 0 0 0 (copy_desc true w)) in *.
     split; [|exact (wfo_agree h h' t Hwfo0 Hw' Hag)].
-    split; [exact Hw'|]. exists (map snd L).
+    split; [exact Hw'| |].
+    { intros l a Hin G. rewrite Ha in Hin. rewrite Hr. apply in_map_iff in Hin. destruct Hin as [[l' a'] [Heq Hin]].
+      simpl in Heq; subst l'. assert (get_a h' l = Some a') by (eapply layout_atoms_get; eauto).
+      assert (a' = a) by congruence. subst a'. eapply lay_chains_back; eauto. }
+    exists (map snd L).
     split; [unfold walk; rewrite Hc; apply walk_of_layout; exact HLw|].
     split; [unfold normal; rewrite map_map; unfold L; rewrite lay_chains_abs; apply renum_chains_idem|].
     rewrite walk_atoms_layout, lay_chain_res_eq.
@@ -629,7 +660,7 @@ Qed.
 
 Lemma wfo_reach_lt h t : wfo h t -> forall l, In l (reach h t) -> l < h_next h.
 Proof.
-  intros [Hw [w [Hwalk [Hn [Hnd [Hat [Hre [_ [_ Hb]]]]]]]]].
+  intros [Hw _ [w [Hwalk [Hn [Hnd [Hat [Hre [_ [_ Hb]]]]]]]]].
   destruct (walk_chain_locs_lt h _ w Hw Hwalk) as [L1 [L2 L3]].
   destruct (chainwise_of_walk _ _ _ Hwalk) as [CR CA].
   intros l Hin. unfold reach in Hin. rewrite Hat, Hre, CR, CA in Hin.
@@ -647,12 +678,9 @@ Theorem copy_independent h t h' t' u :
 Proof.
   intros Ht Hu Hc l Hin Hin'.
   pose proof (copy_fresh h t h' t' Ht Hc l Hin) as Hge.
-  destruct (copy_wfo h t h' t' Ht Hc) as [_ Ht'].
   pose proof (copy_frame h t h' t' Ht Hc) as Hag.
-  destruct Ht as [Hw _].
-  assert (Hu' : wfo h' u) by (apply (wfo_agree h h' u Hu); [apply (copy_wfo h t h' t'); auto; split; auto | exact Hag]).
   (* reach of u is the same list in h' as in h, hence below the old allocation pointer *)
-  destruct Hu as [Hwu [w [Hwalk [Hn [Hnd [Hat [Hre [_ [_ Hb]]]]]]]]].
+  destruct Hu as [Hwu _ [w [Hwalk [Hn [Hnd [Hat [Hre [_ [_ Hb]]]]]]]]].
   assert (Hwalk' : walk h' u = Some w) by (eapply walk_agree; eauto).
   destruct (walk_chain_locs_lt h _ w Hwu Hwalk) as [L1 [L2 L3]].
   destruct (chainwise_of_walk _ _ _ Hwalk') as [CR CA].
